@@ -395,7 +395,7 @@ impl<'a, F: IVP> SolOut for DefaultSolOut<'a, F> {
                 if !self.first_output_done && (xold - *x).abs() > self.tol {
                     let direction = (*x - xold).signum();
                     // For backward integration (direction < 0), target is x0 - h0
-                    let target = self.x0 + direction * h0;
+                    let target = self.x0 + direction * h0.abs();
                     
                     if direction * (*x - target) >= -self.tol {
                         // We've reached or passed the target point
